@@ -29,6 +29,10 @@ pub struct RefCfg {
     pub shadow: bool,
     pub alphabet: Vec<char>,
     pub max_len: usize,
+    /// explicit text list instead of all strings over the alphabet (the "tall" sweep)
+    pub text_list: Option<Vec<String>>,
+    /// search from offset 0 only
+    pub offset0_only: bool,
 }
 
 pub fn weight(pattern: &str, text: &str) -> usize {
@@ -36,8 +40,8 @@ pub fn weight(pattern: &str, text: &str) -> usize {
 }
 
 pub fn run(cx: &Ctx, space: &Space, cfg: &RefCfg) -> Tally {
-    let texts = space::texts(&cfg.alphabet, cfg.max_len);
-    let text_offsets: Vec<Vec<usize>> = texts.iter().map(|t| space::offsets(t)).collect();
+    let texts = cfg.text_list.clone().unwrap_or_else(|| space::texts(&cfg.alphabet, cfg.max_len));
+    let text_offsets: Vec<Vec<usize>> = texts.iter().map(|t| if cfg.offset0_only { vec![0] } else { space::offsets(t) }).collect();
     let prop = cx.prop.clone();
     let tallies = par::run_workers(64, |_w, claimer| {
         engine::quiet_panics();
@@ -242,4 +246,19 @@ pub fn replay(case: &J) -> i32 {
         println!("not reproduced");
         0
     }
+}
+
+/// Long, regular texts for the "tall" sweep: many loop iterations, long undo logs.
+pub fn tall_texts(max_n: usize) -> Vec<String> {
+    let mut v = Vec::new();
+    let mut n = 6;
+    while n <= max_n {
+        v.push("a".repeat(n));
+        v.push(format!("{}b", "a".repeat(n)));
+        v.push(format!("b{}", "a".repeat(n)));
+        v.push("ab".repeat(n / 2));
+        v.push(format!("{}é", "a".repeat(n)));
+        n += if n < 24 { 1 } else { 8 };
+    }
+    v
 }
